@@ -17,10 +17,21 @@ class P(vlib.Prop):
             "without the disk cache; (c) InitKeyring with hostile key locations (percent-encoded separators and dot-dots in the last segment, queries, fragments, "
             "trailing slashes, backslashes) served by a real HTTP server and read from local paths, onto DirFS(root), with hostile ETag headers and a disk cache; "
             "(d) package and index URLs of the same kinds through FetchPackage / GetRepositoryIndexes with a disk cache; (e) key discovery with hostile key ids; "
-            "(f) cachedPackage with a planted control section whose datahash points anywhere (and a planted member there), and fresh fetches of such packages. "
+            "(f) cachedPackage with a planted control section whose datahash points anywhere (and a planted member there), and fresh fetches of such packages; "
+            "(g) the class climb-link, judged by the operational model of dirFS on a host WITH a parent directory (Model/ConfineHost.v: overlay + kernel path "
+            "resolution; the host tree is printed before each experiment): relative symbolic links made at depth 0..2 whose targets climb 0..3 levels above the "
+            "root, host directories at every place such a target can name (T/victim, n7/victim, n6/victim, n5/victim), with and without an in-root directory "
+            "where the in-memory tree's reading of the target lands, reached directly or through a detour (d1/d2/up -> ../..), clean / unclean (a/../..) / "
+            "absolute targets, followed by Create, Remove, MkdirAll, Mkdir, WriteFile, Link (new and old name beneath), Chmod, Mknod, Symlink beneath the link — as "
+            "direct dirFS operation sequences (the model must give the same answer for EVERY operation and the same changed places inside and outside the root) "
+            "and as package entries through the installer; the witnesses of c18_dirfs_confined_refuted_operational replayed; the case-insensitive mode "
+            "(DirFSWithCaseSensitive(false)): host calls must be a subset of the model's. paths stage also: url.PathUnescape and the alpine key file name, "
+            "os.CreateTemp / os.MkdirTemp names for 15 patterns, everything expandapk.ExpandApk creates in the directory it is given, and the place-returning "
+            "lookup of the operational model against getNodeCountLinks' answer on every tree-lookup case. "
             "Every change outside the four designated directories is handed to the verified validator `escapes` and must be explained by the model as one of "
             "the recorded findings: F1 only for calls that reach the os package on the unchanged code (host-first methods, or tree-checked ones after an "
-            "enabling MkdirAll), F2 only through an accepted call; anything else is a violation. A case is non-trivial unless the input is already clean / "
+            "enabling MkdirAll), F2 only through an accepted call, F6 (class climb-link) only for a tree-checked call that the MODEL's overlay accepts too; "
+            "anything else is a violation. A case is non-trivial unless the input is already clean / "
             "empty; distinct = distinct case terms.")
     stages = (
         dict(name="paths", cmd="c18", args=lambda t, s: ["-stage", "paths"]),
@@ -36,6 +47,8 @@ class P(vlib.Prop):
         "its host is a reference filesystem rooted at the base, so WHERE a climbing name lands is said by the lexical model (c18_clean_join_under), "
         "THAT the host executes the call by the operational one; the order of the two calls in each method is re-read from rwosfs.go on every run",
         "a cache directory's content is apko's own (c18_cache_member_datahash_reachable); c18_cache_member holds for any content",
+        "the host of Model/ConfineHost.v is a tree of files, symbolic links and directories without permissions, contents or link counts (a hard link is a copy; "
+        "the call reports its source as touched); the kernel follows at most [kfuel] steps; os.CreateTemp's random part is a non-empty run of decimal digits",
     )
     level_text = ("Theorems about executable models of apko's path handling, for all byte strings: lexical confinement of clean(join(base,p)) characterised at component level; "
                   "sanitizePath / sanitizeArchivePath / dirFS.Link's test are sound (component-wise since the fixes) and the old string-prefix test is refuted; "
@@ -43,7 +56,17 @@ class P(vlib.Prop):
                   "is strictly below the cache root; key files are stored under a single component; lookups in the in-memory trees never leave the tree; "
                   "the directory-backed filesystem is NOT confined (refuted with the two recorded witnesses) and, over the operational model of dirFS, exactly "
                   "which methods have the host execute the call before the in-memory tree can refuse the name (all but Create / OpenFile(O_CREATE) / Remove — finding C18-F1), "
-                  "with the positive complement that an operation whose names have no '..' component changes the host only below the base; "
+                  "with the positive complement that an operation whose names do not climb lexically (a/../b included) changes the host only below the base; "
+                  "on a host WITH a parent directory (kernel path resolution modelled: '..' to the physical parent, links followed as each call follows them): "
+                  "if no name climbs and every symbolic link below the base has a relative target whose '..' all come first and are no more than the link's own "
+                  "directory is deep — a condition kept by every step whose new links fit where the kernel puts them — every place any run touches lies at or below "
+                  "the base whatever the in-memory overlay answers (c18_hostfs_step/run_confined; static form: no '..' in any target), refuted operationally "
+                  "without these hypotheses by six witnesses (F1, F2 and four forms of F6: the overlay accepts Create/Remove where the kernel resolves outside: "
+                  "absolute target, unclean target a/../x, detour through d1/d2/up -> ../.., Remove); the gate of the tree-checked methods: a relative link whose "
+                  "target joined to the names traversed (the join's shape is read from memfs.go / tarfs) still begins with '..' makes every lookup through it fail "
+                  "(what seeded change C18-4 breaks); ExpandApk's temporary directory, stream files and tar, PackageData's temporary file and the names cachePackage "
+                  "advertises lie in the cache directory (every creating call of pkg/apk/expandapk and pkg/paths is read from the source with its arguments traced "
+                  "to parameters); fetchAlpineKeys' decoded key name can climb and is held back on DirFS only by that gate; "
                   "everything cachedPackage creates for a cached datahash lies in the cache directory whatever the datahash text is (the os.Stat that precedes the hex check can be aimed outside: refuted as a read-confinement claim). "
                   "The model is tied to the code by goextract (encoding, extensions, shape of each containment test, key path, maxLinks, order of host and overlay calls in every dirFS method, "
                   "cachedPackage's suffixes and the position of its hex check) and by differential comparison with the real functions; "
@@ -53,7 +76,10 @@ class P(vlib.Prop):
     design_ref = "DESIGN.md 7 C18"
     modelled_not_verified = ("sanitizePath, sanitizeArchivePath, dirFS.Link's check, etagFromResponse, cacheFileFromEtag, cachePathFromURL, cacheDirForPackage, InitKeyring's key path, the key-name "
                              "check, getNodeCountLinks, cachedPackage's member names / hex check / PackageData's temporary file, and verifyExpanded's datahash test are modelled by hand "
-                             "(Model/Confine.v over Base/C18Path.v); the operational dirFS model is C17's (Model/DirFS.v); URL.String(), archive/tar, net/http, expandapk.ExpandApk's temporary "
-                             "files, fetchAlpineKeys' decoded key name and the kernel's path resolution are exercised by the canary only")
+                             "(Model/Confine.v over Base/C18Path.v); the operational dirFS model is C17's (Model/DirFS.v); dirFS on a host with a parent directory — the kernel's "
+                             "path resolution, os.MkdirAll, link(2), the overlay's side of every mutating method (memfs.go) — is modelled by hand in Model/ConfineHost.v and compared "
+                             "operation by operation with the real dirFS on the canary tree; os.CreateTemp's naming, ExpandApk's files, AdvertiseCachedFile, url.PathUnescape and "
+                             "fetchAlpineKeys' key name in Model/ConfineTemp.v; URL.String(), archive/tar, net/http, permissions, the case-insensitive mode's caseMap (exercised: its "
+                             "host calls must be a subset of the model's) are not modelled")
 
 PROP = P()
